@@ -269,6 +269,190 @@ def search_config(ctx, runner, config, bound=2, maxruns=20000, sweep=True):
     return out
 
 
+# --------------------------------------------------------------------------
+# the pool shared between several compression contexts (ZSTD_createThreadPool / ZSTD_CCtx_refThreadPool / ZSTD_freeThreadPool):
+# harness/c12_shared.c, oracles only (no model run: the pool model's client grammar has no ZSTDMT in it)
+
+SHARED_SRC = ["c12_shared.c", "sched/zv_sched.c"]
+PRE = os.path.join(core.HARNESS, "sched", "zv_pthread.h")
+# with dictionaries: scenarios about what a job of an ABANDONED frame still reads (private pools too)
+SHARED_WITH_DICT = False
+
+SHARED_KEYS = [   # (substring of the oracle line, stable key)
+    ("refThreadPool", "C12-refThreadPool-ignored-after-first-mt-frame"),
+    ("dictionary of a job", "C12-mt-job-dictionary-freed"),
+    ("use after free", "C12-sharedpool-free-midframe"),
+    ("destroy of a locked", "C12-sharedpool-free-midframe"),
+    ("write into freed memory", "C12-sharedpool-free-midframe"),
+]
+
+
+def shared_corpus():
+    """Hand-made scenarios: (pool threads, programs)."""
+    C = [
+        (2, ["P1.S2.c600.e"]),
+        (2, ["P1.S2.c600.e", "P1.S1.c700.f.c100.e"]),
+        (1, ["P1.S2.c1200.e", "P1.S2.c1200.e", "P1.S1.c600.e"]),          # 3 contexts, 1 thread: every context spins on POOL_tryAdd
+        (2, ["P1.S1.c600.F"]),                                              # context freed in the middle of a frame (job queued / running)
+        (2, ["P1.S2.c1200.F.P1.S1.c600.e", "P1.S2.c600.e.c600.e"]),         # ... while another context keeps using the pool
+        (2, ["P1.S1.c600"]),                                                # program ends mid-frame: final ZSTD_freeCCtx
+        (3, ["P1.S2.c1700.R.c600.e", "P1.S3.c600.e"]),                      # session reset mid-frame, next frame on the same pool
+        (2, ["P1.S2.c1200.A.P1.S1.c600.e", "P1.S1.c600.e"]),
+        (2, ["P1.S1.c600.e.P0.c600.e"]),                                    # back to a private pool between two frames
+        (2, ["P1.S1.c600.e.P0.K.c600.e"]),                                  # ... and the shared pool is freed by the application
+        (2, ["S1.c600.e.P1.c600.e"]),                                       # a pool selected after a first multithreaded frame
+        (2, ["P1.S1.c600.e.S2.c1200.e", "P1.S2.c600.e.S1.c600.e"]),         # ZSTDMT_resize -> POOL_resize on the SHARED pool while the other runs
+        (1, ["P1.S3.c1700.e", "P1.S1.c600.z.e"]),                           # grow the shared pool beyond its capacity from a context
+        (2, ["P1.S2.c600.R.P0.c600.e", "P1.S1.c600.e"]),                    # abandon a frame on the shared pool, go private
+    ]
+    if SHARED_WITH_DICT:
+        C += [(1, ["S1.D.c600.F"]), (1, ["S1.D.c600.R.D.c600.e"]), (2, ["P1.S1.D.c600.R.D.c600.e", "P1.S1.c600.e"])]
+    return C
+
+
+def gen_shared(rng):
+    pool = rng.randint(1, 3)
+    n = rng.choice([1, 2, 2, 3])
+    progs = []
+    for a in range(n):
+        ops, budget, shared, nbw = [], 2800, False, 0
+
+        def prelude():
+            nonlocal shared, nbw
+            if rng.random() < 0.85 and "K" not in ops:
+                ops.append("P1"); shared = True
+            nbw = rng.choice([1, 1, 2, 3]); ops.append("S%d" % nbw)
+            if SHARED_WITH_DICT and rng.random() < 0.3:
+                ops.append("D")
+        prelude()
+        for _ in range(rng.randint(1, 3)):
+            for _ in range(rng.randint(1, 2)):
+                k = rng.choice([600, 600, 1100, 1700])
+                if budget >= k:
+                    ops.append("c%d" % k); budget -= k
+            if rng.random() < 0.3:
+                ops.append("f")
+            x = rng.random()
+            if x < 0.55:
+                ops.append("e")
+            elif x < 0.70:
+                ops.append("R")
+            elif x < 0.80:
+                ops.append("F"); shared = False; prelude()
+            elif x < 0.86:
+                ops.append("A"); prelude()
+            else:
+                break          # the program ends inside the frame
+            y = rng.random()
+            if y < 0.15:
+                ops.append("P0"); shared = False
+                if n == 1 and rng.random() < 0.5:
+                    ops.append("K")
+            elif y < 0.30 and "K" not in ops:
+                ops.append("P1"); shared = True
+            elif y < 0.45:
+                nbw = rng.choice([1, 2, 3]); ops.append("S%d" % nbw)
+            elif y < 0.5:
+                ops.append("z")
+        progs.append(".".join(ops))
+    return pool, progs
+
+
+def shared_line(cid, pool, progs, policy, seed, stay, sched="-"):
+    return "CASE id=%d pool=%d progs=%s policy=%s seed=%d stay=%d sched=%s" % (cid, pool, "|".join(progs), policy, seed, stay, sched)
+
+
+def run_shared_lines(ctx, exe, lines, tag, timeout=600):
+    """Runs case lines through harness/c12_shared; returns a list of dict(line, oracles, end, steps, sched)."""
+    jobs = max(1, min(max(1, core.NCPU - 4), len(lines)))
+    procs = []
+    for k in range(jobs):
+        base = os.path.join(ctx.scratch, "shared-%s-%d" % (tag, k))
+        with open(base + ".cases", "w") as f:
+            for ln in lines[k::jobs]:
+                f.write(ln + "\n")
+        procs.append((base, subprocess.Popen(["bash", "-c", "%s < %s.cases > %s.out 2> %s.err" % (exe, base, base, base)])))
+    deadline = time.time() + timeout
+    res = []
+    for k, (base, p) in enumerate(procs):
+        try:
+            p.wait(timeout=max(1, deadline - time.time()))
+        except subprocess.TimeoutExpired:
+            for _, q in procs:
+                q.kill()
+            raise RuntimeError("C12 shared-pool harness timed out")
+        if p.returncode != 0:
+            raise RuntimeError("C12 shared-pool harness failed rc=%d: %s" % (p.returncode, open(base + ".err").read()[-800:]))
+        mine = lines[k::jobs]
+        cur, idx = None, -1
+        for ln in open(base + ".out", errors="replace"):
+            ln = ln.rstrip("\n")
+            if ln.startswith("CASE "):
+                idx += 1
+                cur = dict(line=mine[idx] if idx < len(mine) else ln, oracles=[], end=None, steps=0, sched="-")
+                res.append(cur)
+            elif ln.startswith("BADCASE"):
+                raise RuntimeError("C12 shared-pool harness rejected a case line")
+            elif cur is not None and ln.startswith("O "):
+                cur["oracles"].append(ln[2:])
+            elif cur is not None and ln.startswith("E "):
+                m = re.match(r"E (\S+) steps=(\d+) sched=(\S+)", ln)
+                if m:
+                    cur["end"], cur["steps"], cur["sched"] = m.group(1), int(m.group(2)), m.group(3)
+        if idx + 1 != len(mine):
+            raise RuntimeError("C12 shared-pool harness: %d cases in, %d out (%s)" % (len(mine), idx + 1, base))
+    return res
+
+
+def shared_key(msg):
+    for sub, key in SHARED_KEYS:
+        if sub in msg:
+            return key
+    return None
+
+
+def shared_report(ctx, res, tag):
+    ctx.notes["shared_pool_step_limit_runs"] = ctx.notes.get("shared_pool_step_limit_runs", 0) + sum(1 for r in res if r["end"] == "LIMIT")
+    bad = [r for r in res if r["oracles"] or r["end"] not in ("END", "LIMIT")]
+    bad.sort(key=lambda r: r["steps"] if r["end"] == "END" else 10 ** 6 + r["steps"])
+    seen = set()
+    for r in bad:
+        msg = r["oracles"][0] if r["oracles"] else "the run ended with %s" % r["end"]
+        key = shared_key(msg)
+        if (key or msg[:50]) in seen:
+            continue
+        seen.add(key or msg[:50])
+        kv = dict(t.split("=", 1) for t in r["line"].split()[1:] if "=" in t)
+        line = r["line"]
+        if r["end"] == "END" and r["sched"] != "-":      # complete schedule known: replay it literally
+            line = shared_line(0, int(kv["pool"]), kv["progs"].split("|"), "n", int(kv["seed"]), int(kv["stay"]), r["sched"])
+        ctx.violation(dict(kind="shared", case=line, tag=tag, observed=dict(end=r["end"], oracles=r["oracles"][:4])), key=key,
+                      what="shared thread pool (ZSTD_createThreadPool / ZSTD_CCtx_refThreadPool): %s (pool=%s progs=%s)"
+                           % ("; ".join(r["oracles"][:3]) or msg, kv.get("pool"), kv.get("progs")))
+
+
+def shared_phase(ctx, rng):
+    exe = core.build_harness("c12_shared", SHARED_SRC, variant="o1", pre_include=PRE,
+                             lib_exclude=["pool.c", "zstdmt_compress.c"], extra_flags=["-w", "-DZV_MAXSTEPS=16384"])
+    lines = []
+    for pool, progs in shared_corpus():
+        lines.append(shared_line(len(lines), pool, progs, "n", 1, 50))
+        for k in range(6 if ctx.quick else 40):
+            lines.append(shared_line(len(lines), pool, progs, "r", rng.getrandbits(40), rng.choice([0, 30, 60, 85])))
+    for i in range(250 if ctx.quick else 4000):
+        pool, progs = gen_shared(rng)
+        lines.append(shared_line(len(lines), pool, progs, rng.choice("rrrn"), rng.getrandbits(40), rng.choice([0, 30, 60, 85])))
+    for ln in lines[:2]:
+        ctx.sample(ln)
+    res = run_shared_lines(ctx, exe, lines, "main")
+    for r in res:
+        shape = re.sub(r"\d+", "", r["line"].split("progs=")[1].split()[0])
+        ctx.count(("shared", shape, r["end"]), nontrivial=r["steps"] >= 40)
+    ctx.notes["shared_pool_runs"] = len(res)
+    ctx.notes["shared_pool_steps"] = sum(r["steps"] for r in res)
+    shared_report(ctx, res, "shared")
+
+
 def tally(ctx, oks):
     for ln in oks:
         m = re.match(r"OK id=(\d+) steps=(\d+) end=(\S+) shape=(\S+)", ln)
@@ -336,6 +520,10 @@ def run(ctx):
     report(ctx, runner, bads, "random")
     if ctx.violations:
         return
+    # 2b. one pool shared by several compression contexts (oracles on the real library under the deterministic scheduler)
+    shared_phase(ctx, rng)
+    if ctx.violations:
+        return
     # 3. exhaustive schedules with a preemption bound on small configurations (supporting evidence)
     ex = []
     small = corpus()
@@ -385,6 +573,20 @@ def run(ctx):
 def replay(ctx, runner):
     obj = json.load(open(ctx.replay_file))
     r = obj.get("replay", obj)
+    if r.get("kind") == "shared":
+        exe = core.build_harness("c12_shared", SHARED_SRC, variant="o1", pre_include=PRE,
+                                 lib_exclude=["pool.c", "zstdmt_compress.c"], extra_flags=["-w", "-DZV_MAXSTEPS=16384"])
+        res = run_shared_lines(ctx, exe, [r["case"]], "replay")
+        ctx.sample(r["case"][:400])
+        for x in res:
+            ctx.count(("shared-replay", x["end"]))
+            core.log("replay:", x["end"], "; ".join(x["oracles"][:4]) or "no oracle fired")
+        shared_report(ctx, res, "replay")
+        if not ctx.violations:
+            core.log("replay: the recorded scenario no longer fails")
+        ctx.prove()
+        ctx.proof_verdict(None)
+        return
     if r.get("kind") != "schedule":
         core.log("replay: nothing executable in this file (kind=%s); re-running the proof step" % r.get("kind"))
         ctx.prove()
